@@ -121,6 +121,19 @@ class MiniEval:
                         continue
                     return r
                 continue
+            if isinstance(st, ast.While) and not st.orelse:
+                fuel = 10000
+                while self.truth(self.ev(st.test, env)):
+                    fuel -= 1
+                    if fuel < 0:
+                        raise Unsupported("while loop does not terminate within the fuel bound")
+                    r = self.run(st.body, env)
+                    if r[0] == "break":
+                        break
+                    if r[0] in ("continue", "fall"):
+                        continue
+                    return r
+                continue
             if isinstance(st, ast.Break):
                 return ("break", None)
             if isinstance(st, ast.Continue):
